@@ -126,7 +126,7 @@ uint64_t vhash(const void *p, size_t n, uint64_t h)
 
 const char *const gd_names[GD_COUNT] = {
 	"empty", "one", "random", "runs", "text", "longdist", "periodic",
-	"zeroruns", "mixed", "code_x86", "code_fixed32", "lowent",
+	"zeroruns", "mixed", "code_x86", "code_fixed32", "lowent", "markov",
 };
 
 static const char *const words[] = {
@@ -164,7 +164,7 @@ int gen_data(vrng *r, vbuf *out, size_t size, int kind, size_t hint)
 		static const uint8_t w[] = {
 			GD_RANDOM, GD_RUNS, GD_RUNS, GD_TEXT, GD_TEXT, GD_LONGDIST,
 			GD_LONGDIST, GD_PERIODIC, GD_ZERORUNS, GD_MIXED, GD_MIXED,
-			GD_MIXED, GD_CODE_X86, GD_CODE_FIXED32, GD_LOWENT, GD_LOWENT,
+			GD_MIXED, GD_CODE_X86, GD_CODE_FIXED32, GD_LOWENT, GD_LOWENT, GD_MARKOV, GD_MARKOV,
 		};
 		kind = w[vrng_below(r, sizeof(w))];
 	}
@@ -286,6 +286,27 @@ int gen_data(vrng *r, vbuf *out, size_t size, int kind, size_t hint)
 		}
 		while (n < size) p[n++] = (uint8_t)vrng_u64(r);
 		break;
+	case GD_MARKOV: {
+		// "log-like" text: short words, each with only a few possible successors (every position has an
+		// overlapping short match, which keeps an optimal parser's look-ahead extending), interrupted by
+		// long verbatim copies of older data (matches longer than most nice_len values)
+		unsigned nw = 8 + vrng_below(r, 56), wl = 3 + vrng_below(r, 6), ns = 2 + vrng_below(r, 3);
+		uint8_t wd[64][8]; uint8_t succ[64][4];
+		for (unsigned i = 0; i < nw; ++i) { vrng_fill(r, wd[i], wl); for (unsigned k = 0; k < ns; ++k) succ[i][k] = (uint8_t)vrng_below(r, nw); }
+		unsigned cur = 0; size_t next_copy = 2000 + vrng_below(r, 4000);
+		while (n < size) {
+			if (n >= next_copy && n > 1500) {
+				size_t l = 280 + vrng_below(r, 400); if (l > size - n) l = size - n;
+				size_t src = (size_t)vrng_below64(r, n - 1000);
+				memmove(p + n, p + src, l); n += l;
+				next_copy = n + 3800 + vrng_below(r, 400);
+				continue;
+			}
+			for (unsigned k = 0; k < wl && n < size; ++k) p[n++] = wd[cur][k];
+			cur = succ[cur][vrng_below(r, ns)];
+		}
+		break;
+	}
 	case GD_LOWENT: {
 		unsigned alpha = 2 + vrng_below(r, 14);
 		for (n = 0; n < size; ++n) p[n] = (uint8_t)('a' + vrng_below(r, alpha));
@@ -294,6 +315,22 @@ int gen_data(vrng *r, vbuf *out, size_t size, int kind, size_t hint)
 	}
 	out->n = size;
 	return kind;
+}
+
+void gen_tail_insn(vrng *r, lzma_vli id, uint8_t *buf, size_t n)
+{
+	uint32_t v = (uint32_t)vrng_u64(r);
+	uint8_t *t;
+	switch (id) {
+	case LZMA_FILTER_X86: if (n < 5) return; t = buf + n - 5; t[0] = vrng_chance(r, 1, 2) ? 0xE8 : 0xE9; t[1] = (uint8_t)v; t[2] = (uint8_t)(v >> 8); t[3] = (uint8_t)(v >> 16); t[4] = vrng_chance(r, 1, 2) ? 0x00 : 0xFF; break;
+	case LZMA_FILTER_POWERPC: if (n < 4) return; t = buf + n - 4; t[0] = (uint8_t)(0x48 | ((v >> 8) & 3)); t[1] = (uint8_t)v; t[2] = (uint8_t)(v >> 16); t[3] = (uint8_t)((v >> 24 & 0xFC) | 1); break;
+	case LZMA_FILTER_ARM: if (n < 4) return; t = buf + n - 4; t[0] = (uint8_t)v; t[1] = (uint8_t)(v >> 8); t[2] = (uint8_t)(v >> 16); t[3] = 0xEB; break;
+	case LZMA_FILTER_ARMTHUMB: if (n < 4) return; t = buf + n - 4; t[0] = (uint8_t)v; t[1] = (uint8_t)(0xF0 | ((v >> 8) & 7)); t[2] = (uint8_t)(v >> 16); t[3] = (uint8_t)(0xF8 | ((v >> 24) & 7)); break;
+	case LZMA_FILTER_SPARC: if (n < 4) return; t = buf + n - 4; if (vrng_chance(r, 1, 2)) { t[0] = 0x40; t[1] = (uint8_t)((v >> 8) & 0x3F); } else { t[0] = 0x7F; t[1] = (uint8_t)(0xC0 | (v >> 8)); } t[2] = (uint8_t)(v >> 16); t[3] = (uint8_t)(v >> 24); break;
+	case LZMA_FILTER_ARM64: if (n < 4) return; t = buf + n - 4; t[0] = (uint8_t)v; t[1] = (uint8_t)(v >> 8); t[2] = (uint8_t)(v >> 16); t[3] = (uint8_t)(0x94 | ((v >> 24) & 3)); break;
+	case LZMA_FILTER_RISCV: if (n < 4) return; t = buf + n - 4; t[0] = (uint8_t)(0xEF | 0); t[1] = (uint8_t)(v >> 8); t[2] = (uint8_t)(v >> 16); t[3] = (uint8_t)(v >> 24); if (vrng_chance(r, 1, 2)) t[0] = 0xEF; else { t[0] = 0x6F; t[1] = (uint8_t)((t[1] & 0xF0) | 0x02); } break; // JAL rd=x1 (0xEF) / rd=x5
+	case LZMA_FILTER_IA64: default: break;
+	}
 }
 
 /////////////
